@@ -593,6 +593,13 @@ class LockAnalysis:
             return
         if len(args) == 2:
             if is_mutex_type(ptypes[1]):
+                r = self.eng.handle_ctor_lock(f, self, st, pos)
+                if r is not None and not (r[0].st == HELD and r[1] is True):
+                    # the (pointer, mutex&) constructor no longer simply locks: use what its initialisers do
+                    state[key] = r[0]
+                    if r[1] is not None:
+                        self.acquire_events.append((pos, key, r[0], r[1], st))
+                    return
                 v = LockVal(path(f, args[1]), mode, HELD)
                 state[key] = v
                 self.acquire_events.append((pos, key, v, True, st))
@@ -1043,6 +1050,10 @@ class Engine:
                 mode = self.handle_mode(t)
                 data = self._data_path(g, args[0])
                 if is_mutex_type(ptypes[1]):
+                    r = self.handle_ctor_lock(g, la, e, pos)
+                    if r is not None and not (r[0].st == HELD and r[1] is True):
+                        return [dict(data=data, mutex=r[0].mutex, mode=r[0].mode, st=r[0].st, blocking=(r[1] is True),
+                                     cond=cond, site=g.loc(e))]
                     return [dict(data=data, mutex=path(g, args[1]), mode=mode, st=HELD,
                                  blocking=True, cond=cond, site=g.loc(e))]
                 lk = unwrap(g, args[1])
@@ -1160,6 +1171,18 @@ class Engine:
             if ie is None or not fld:
                 continue
             ft = ie.get("t", "")
+            if lock_class(ft) and ie["k"] in CALLS and ie.get("args"):
+                # the lock comes out of a factory (shared_locker<M>::generate_lock(mut)): what that factory returns
+                s_ = self.handle_summary_of_call(h, ie)
+                if not s_ or len(s_) != 1:
+                    return None
+                a_ = s_[0]
+                i0 = pidx.get(a_.get("mutex"))
+                if i0 is None or i0 >= len(args):
+                    return None
+                lockv = LockVal(path(g, args[i0]), a_.get("mode") or mode, a_["st"])
+                kind = True if a_.get("blocking") else ("try" if a_["st"] == MAYBE else None)
+                continue
             if lock_class(ft) and ie["k"] in CTORS:
                 ia = [h.s(x) for x in ie["args"]]
                 ipt = ie["callee"].get("params", [])
